@@ -467,6 +467,48 @@ func ruleGateCap(w *World, r *Report) {
 			r.ok("GATE-CAP", key, w.Pos(f.Pos()), "adds only through capacity-tested operations")
 		}
 	}
+	// the replacement edge asks about the id the fact will be stored under: a property is stored under an id made from
+	// the fact (genPropId), not under the given one, so in a function that weighs capacity against `is there already`
+	// the id handed to State.Get derives — on some edge of a phi at least — from the function that makes that id
+	gp := w.Func("core", "genPropId")
+	for _, fn := range w.Funcs {
+		if w.RelPkg(fn) != "core" || a.inStateLayer(fn) || isTestFile(w, fn) || len(fn.Blocks) == 0 {
+			continue
+		}
+		weighs := false
+		var gets []*ssa.CallCommon
+		var getPos []ssa.Instruction
+		allInstrs(fn, func(in ssa.Instruction) {
+			c := callOf(in)
+			if c == nil {
+				return
+			}
+			if capGate.IsGate(c) {
+				weighs = true
+			}
+			if existsGate.IsGate(c) {
+				gets = append(gets, c)
+				getPos = append(getPos, in)
+			}
+		})
+		if !weighs {
+			continue
+		}
+		for i, c := range gets {
+			if len(c.Args) < 2 {
+				continue
+			}
+			key := "fn=" + fname(fn) + " replacement-id"
+			if dependsOn(c.Args[1], func(v ssa.Value) bool {
+				cc, ok := v.(*ssa.Call)
+				return ok && cc.Common().StaticCallee() == gp
+			}) {
+				r.ok("GATE-CAP", key, w.PosOf(getPos[i]), "the id that is looked up is the id the fact is stored under (a property's is made from the fact)")
+			} else {
+				r.violation("GATE-CAP", key, w.PosOf(getPos[i]), "a full location lets a write through when State.Get finds the *given* id; a property is stored under an id made from the fact, so `replace what is stored under x` with a property in hand adds a fact to a full location")
+			}
+		}
+	}
 	// AtCapacity itself compares MaxFacts with State.Count
 	at := w.Method("core", "Location", "AtCapacity")
 	usesCount, usesMax := false, false
